@@ -99,3 +99,11 @@ def U(x):
 def S(x):
     """signed integer value of a bit-vector term"""
     return z3.BV2Int(x, True)
+
+
+def valid_ptr(ex, p, n):
+    """a pointer argument designates n accessible bytes: non-null and not wrapping around the address space"""
+    a = ex.ptr_to_bv(p)
+    if p.obj is not None:
+        return z3.BoolVal(True)
+    return z3.And(a != 0, z3.ULE(a, z3.BitVecVal((1 << a.size()) - 1 - n - 64, a.size())))
